@@ -336,7 +336,7 @@ def member_recipes(ctx, rng):
                   if p.stat().st_size <= 300_000)
     rest = [f for f in rest if f not in fx]
     rng.shuffle(rest)
-    fx += rest[:2] if ctx.quick else rest[:40]
+    fx += rest[:2] if ctx.quick else rest[:20]
     return api + [("fixture", f) for f in dict.fromkeys(fx)]
 
 
@@ -531,7 +531,7 @@ def run(ctx: core.Run):
     n_deg = 0
     i_deg = len(traces)
     for recipe in deg_recipes:
-        for rep in range(1 if ctx.quick else 3):
+        for rep in range(1 if ctx.quick else 2):
             for fam, ops in D.degenerate_histories(recipe, rng):
                 if recipe[0] == "fixture" and not (fam.startswith("only-mask") or (
                         fam in ("last-clipping-layer-unclip", "last-clipping-layer-delete") or not ctx.quick)):
@@ -548,7 +548,7 @@ def run(ctx: core.Run):
     for t in others:
         if not any(o[0] not in ("obs", "opaque") for o in t.ops):
             continue
-        if n_walk_end >= (180 if ctx.quick else 2500):
+        if n_walk_end >= (180 if ctx.quick else 900):
             break
         plain = [o for o in t.ops if o[0] not in ("obs", "opaque")]
         n_walk_end += 1
